@@ -78,6 +78,11 @@ chk('C07', 'exploration',
     'Every assignment operator x operand pair over boundary INTEGER/FLOAT/RTIME/BOOL values x {literal, variable} where the reference defines the result; declaration defaults and STRING renderings; every comparison of 21 typed atoms (set / not-set / empty strings, headers, literals) where defined, regex matches in the RE2/PCRE common subset, truthiness, prefix !, &&/||/! combinations; each comparison also in its dual form; every truth assignment of if / else-if / else chains up to 3 conditions; every switch arrangement of up to 3 (quick) / 4 (thorough) cases x fallthrough flags x default position over 5 controls; every ACL of up to 3 (quick) / 4 (thorough) entries from 62 plain/negated prefixes of a 4-bit IPv4 sub-space x 18 addresses (and a 3-bit IPv6 sub-space) against a longest-prefix reference. All run through the real interpreter; observables are log lines.',
     'Trusts: the reference evaluator in mc/checks/c07 (written from the Fastly documentation; refuses what the documentation does not define - see DESIGN appendix A).')
 
+chk('C06', 'model_checking',
+    'TLA+ model checked by TLC (all reachable states) + conformance: behaviours regenerated from TLC\'s dumped state graph are replayed on the real interpreter',
+    'tla/Lifecycle.tla states the documented Fastly lifecycle for up to 3 requests over 2 URLs with restarts <= 3 and cache store/lookup; TLC checks the invariants (restart bound, vcl_log at most once and last, hit iff stored, first request never hits, failed requests do not log) on all 3353 reachable states. The dumped graph is parsed; every behaviour with at most 3 (quick) / 5 (thorough) non-default choices over 3 requests (5 / 7 for single requests) plus one behaviour through every remaining edge (all 10296 edges covered) is compiled to a VCL program and a request history, run through ServeHTTP on a fresh interpreter and compared step by step (subroutines executed, restarts, reported error, X-Cache, cached flag). All 216 three-request histories over rate-counter / penalty-box operations are compared with a map model.',
+    'Trusts: TLC; the model itself (written from the Fastly documentation; deliver_stale, expiry and purge are outside it); the dot-dump parser (node count is checked against TLC\'s distinct-state count).', '§4 C06')
+
 NOT_YET = {i: 'check not built yet in this session (design in DESIGN.md §4); will be claimed once its command exists' for i in ids if i not in CHECKS}
 
 m = {
@@ -91,6 +96,7 @@ m = {
    'add_only': True,
  },
  'engines': [
+   {'name': 'tlc+conformance', 'path': 'tla', 'serves_properties': ['C06'], 'kind_free_text': 'TLA+ model checked by TLC; dumped state graph replayed against the implementation by mc/checks/c06'},
    {'name': 'choice+shard', 'path': 'mc/engine', 'serves_properties': list(CHECKS.keys()),
     'kind_free_text': 'stateless deviation-bounded explorer + sharded exhaustive case runner with crash attribution, class keys, known-finding classification, replay files'},
  ],
